@@ -25,6 +25,7 @@ const (
 // A ReplayFile is a minimised failing run.
 type ReplayFile struct {
 	Property    string   `json:"property"`
+	Tier        string   `json:"tier"`
 	Engine      string   `json:"engine"`
 	TreeHash    string   `json:"repo_tree_hash"`
 	Seed        uint64   `json:"seed"`
@@ -223,6 +224,8 @@ func Main(engines map[string]Engine, propEngine map[string]string) {
 		harness("unknown or unclaimed property %q", o.Property)
 	}
 
+	Thorough = o.Tier == "thorough"
+
 	eng := engines[en]
 
 	if o.CapSec == 0 {
@@ -400,7 +403,7 @@ func minimise(eng Engine, o *Options, seed uint64, idx int, tape []uint32, v *Vi
 		_ = t
 
 		return &ReplayFile{
-			Property: o.Property, Engine: eng.Name(), TreeHash: o.TreeHash, Seed: seed, RunIndex: idx,
+			Property: o.Property, Tier: o.Tier, Engine: eng.Name(), TreeHash: o.TreeHash, Seed: seed, RunIndex: idx,
 			Tape: best, OriginalLen: len(tape), ShrinkRuns: 0,
 			Signature: sig, Message: v.Message, EventHash: "not-comparable", Trace: []string{"(trace is printed by the replay)"},
 		}
@@ -513,7 +516,7 @@ func minimise(eng Engine, o *Options, seed uint64, idx int, tape []uint32, v *Vi
 	}
 
 	return &ReplayFile{
-		Property: o.Property, Engine: eng.Name(), TreeHash: o.TreeHash, Seed: seed, RunIndex: idx,
+		Property: o.Property, Tier: o.Tier, Engine: eng.Name(), TreeHash: o.TreeHash, Seed: seed, RunIndex: idx,
 		Tape: best, OriginalLen: len(tape), ShrinkRuns: tries,
 		Signature: fv.Signature(), Message: fv.Message,
 		EventHash: fmt.Sprintf("%016x", ft.EventHash()), Trace: ft.Trace,
@@ -572,6 +575,7 @@ func replayMain(engines map[string]Engine, propEngine map[string]string, o *Opti
 	}
 
 	eng := engines[en]
+	Thorough = rf.Tier == "thorough"
 	known, _ := loadKnown(o.KnownPath, rf.Property)
 	v, t := runTape(eng, rf.Property, rf.Seed, rf.Tape, known, true)
 
